@@ -47,6 +47,28 @@ def run(ctx):
         ctx.ob("T3-node-filters", ch.name, "push(State)<-check_canonicity", "ok" if can else "violation",
                "dominated by check_canonicity(&dset, ..) on the pushed dset" if can else
                "a node is generated without (a still valid) check_canonicity on its D-set: isomorphic copies are generated", ch.span_of(bi))
+        # per-child flags: the flags checked by check_canonicity are the ones stored in the child, and they are a copy of the
+        # parent's flags made inside this loop iteration (no leakage between sibling candidates)
+        flags = v[2][1]
+        cc = [a for a in fa if a[0] == "bool" and a[2] is True and a[1][0] == "call" and a[1][1].endswith("check_canonicity")]
+        cflags = None
+        for a in cc:
+            x = a[1][2][1]
+            while x[0] == "call" and x[2]:
+                x = x[2][0]
+            cflags = x
+        same = cflags is not None and flags == cflags
+        fresh = False
+        if same and flags[0] == "local":
+            defs = ch.all_defs_origins(flags[1])
+            lb = loop_blocks_of_payload(ch, ch.origin([x for x in ch.calls(exact="dsets::PartialDSet::set")][0][1]["args"][3])) if any(True for _ in ch.calls(exact="dsets::PartialDSet::set")) else None
+            if len(defs) == 1 and lb is not None:
+                dbb, dterm = defs[0]
+                src = norm(dterm, g)
+                fresh = src == ("field", st, "is_remap_start") and ch.dominates(lb[1], dbb)
+        ctx.ob("T3-per-child-state", ch.name, "State.is_remap_start", "ok" if same and fresh else "violation",
+               "the flags passed to check_canonicity are the child's own, cloned from the parent's inside the iteration" if same and fresh else
+               "the canonicity flags of a child are not a per-iteration copy of the parent's flags (same object as checked: %s, cloned from state.is_remap_start inside the loop: %s): updates made while testing one sibling leak into the next" % (same, fresh), ch.span_of(bi))
         nxt = v[2][2]
         oknx = nxt == ("call", "generators::dset_generators::next_undefined", (dset, i_t, d_t))
         ctx.require(oknx, "T3-next-undefined", ch.name, "State.next_i_d", "the child's next entry is next_undefined(&dset, i, d) of its own dset",
